@@ -213,6 +213,13 @@ def Cyc.ge (l r : Cyc) : Bool := !Cyc.lt l r
 iterator, written as position `0`; the boundary is empty -/
 def Cyc.default : Cyc := ⟨0, 0, 0⟩
 
+/-- `explicit cyclic_iterator(cyclic_iterator<OtherIterator> const &other)`: `it_(other.get())`, the two boundary iterators converted
+one by one (`iterator` → `const_iterator`: the same positions) -/
+def Cyc.convert (other : Cyc) : Cyc := ⟨other.it, other.first, other.second⟩
+
+/-- `operator=(cyclic_iterator<OtherIterator> const &other)`: overwrites position and boundary of `*this`, returns `*this` -/
+def Cyc.assignFrom (_self other : Cyc) : Cyc := ⟨other.it, other.first, other.second⟩
+
 /-- `std::ptrdiff_t`, the `difference_type` of the container iterators -/
 def ptrdiffTy : IntTy := ⟨true, 64⟩
 
@@ -225,17 +232,20 @@ def Cyc.advance64 (c : Cyc) (n : Int) : M Cyc :=
 def Cyc.subAssign64 (c : Cyc) (n : Int) : M Cyc :=
   if ¬ ptrdiffTy.InRange (-n) then .error .signedOverflow else c.advance64 (-n)
 
-/-- a history of iterator operations: `++it`, `--it`, `it += n` (`it -= n` is `it += -n`, see iterator/base_impl.hpp) -/
+/-- a history of iterator operations: `++it` / `it++`, `--it` / `it--`, `it += n`, `it -= n`
+(`iterator/base_impl.hpp`: `operator-=(d)` is `*this += -d`; the post-fix forms change the iterator like the pre-fix ones) -/
 inductive CycOp where
   | inc
   | dec
   | adv (n : Int)
+  | sub (n : Int)
   deriving Repr, DecidableEq
 
 def Cyc.apply (c : Cyc) : CycOp → M Cyc
   | .inc => .ok c.increment
   | .dec => .ok c.decrement
   | .adv n => c.advance n
+  | .sub n => c.advance (-n)
 
 def Cyc.run (c : Cyc) : List CycOp → M Cyc
   | [] => .ok c
